@@ -195,10 +195,13 @@ class Check(object):
             'wall_s': round(wall, 2),
             'violations': n_viol,
         }
-        tmp = os.path.join(EVIDENCE, '%s.json.tmp' % self.prop)
+        # X.. ids are specification coverage beyond the listed properties: their evidence is kept apart
+        evdir = EVIDENCE if not self.prop.startswith('X') else os.path.join(VERIF, 'evidence_ext')
+        os.makedirs(evdir, exist_ok=True)
+        tmp = os.path.join(evdir, '%s.json.tmp' % self.prop)
         with open(tmp, 'w') as f:
             json.dump(ev, f, indent=1, sort_keys=True)
-        os.replace(tmp, os.path.join(EVIDENCE, '%s.json' % self.prop))
+        os.replace(tmp, os.path.join(evdir, '%s.json' % self.prop))
 
 
 def close(a, b, tol=1e-8, scale=None):
